@@ -244,6 +244,7 @@ def run(ctx):
     from sa.rules import C02round
     C02round.run(ctx, repo)
     C02round.data_rule(ctx, repo)
+    C02round.ignored_gap_rule(ctx, repo)
     from sa.rules import memo
     memo.run_for(ctx, repo, 'C01')
     return report.finish(ctx, EXPLANATION)
